@@ -539,6 +539,34 @@ class modict(odict):
                     result.append(key, val)
         return result
 
+    def insert(self, index, key, val):
+        """
+        Insert key at index with val as its only value if key not in modict
+        """
+        super(modict, self).insert(index, key, [val])
+
+    def reorder(self, other):
+        """
+        Replace the values in this modict with the values of the `other` odict
+        (all the values of a key when other is a modict) and move the keys of
+        other to the end in the order of other.
+        Raises ValueError if other is not an odict
+        """
+        if not isinstance(other, odict):
+            raise ValueError('other must be an odict')
+
+        if other is self:
+            return
+
+        for key in other:
+            if isinstance(other, modict):
+                vals = list(dict.__getitem__(other, key))
+            else:
+                vals = [other[key]]
+            if key in self:
+                del self[key]
+            super(modict, self).__setitem__(key, vals)
+
     def get(self, key, default=None, index=-1, kind=None):
         """
         Return the most recent value for a key, that is, the last element
